@@ -170,6 +170,7 @@ type stressRun struct {
 	clock   atomic.Int64
 	arrived atomic.Int32
 	hd      *sync.RWMutex // serialises handle updates against deletes while D6 is open
+	hdDel   sync.Mutex
 	avoided atomic.Int64  // overlaps of the two kinds the serialisation prevented
 	logs    [][]HOp
 	panics  []string
@@ -240,6 +241,10 @@ func (r *stressRun) guarded(o *HOp, l *ctree.Leaf) *ctree.Leaf {
 		}
 		defer r.hd.RUnlock()
 	case r.hd != nil && isDelKind(o.Kind):
+		// deletes queue among themselves first (the tree serialises them anyway),
+		// so a failed TryLock means a handle update is in flight
+		r.hdDel.Lock()
+		defer r.hdDel.Unlock()
 		if !r.hd.TryLock() {
 			r.avoided.Add(1)
 			r.hd.Lock()
